@@ -1,5 +1,6 @@
 import ChessVerif.Lemmas.Bits
 import ChessVerif.Refine.Abs
+import ChessVerif.Lemmas.Hash
 /-!
 `Core T b`: the structural invariant of a `Board` — piece boards pairwise disjoint, colour boards
 disjoint and covering exactly `combined`, every occupied square has a piece kind, and the raw
@@ -20,11 +21,14 @@ def keyAt (T : Tables) (b : Board) (s : Sq) : BB :=
 
 def placementHash (T : Tables) (b : Board) : BB := allSq.foldl (fun h s => h ^^^ keyAt T b s) 0#64
 
-structure Core (T : Tables) (b : Board) : Prop where
+/-- the structural part: boards disjoint and consistent -/
+structure Struct (b : Board) : Prop where
   piece_disj : ∀ i x y, x ≠ y → b.pbit x i = true → b.pbit y i = false
   color_disj : ∀ i, b.white.getLsbD i = true → b.black.getLsbD i = false
   comb_color : ∀ i, b.combined.getLsbD i = (b.white.getLsbD i || b.black.getLsbD i)
   comb_piece : ∀ i, b.combined.getLsbD i = true ↔ ∃ p, b.pbit p i = true
+
+structure Core (T : Tables) (b : Board) : Prop extends Struct b where
   hash : b.hash = placementHash T b
 
 /-! ### per-square queries in terms of bits -/
@@ -60,5 +64,467 @@ theorem colorOn_bits (b : Board) (s : Sq) :
                   else if b.black.getLsbD s.val = true then some .black else none := by
   unfold Board.colorOn
   simp only [and_ofSq_ne_zero_iff]
+
+end Chess
+
+namespace Chess
+
+/-! ### the hash is a function of the position (C08) -/
+
+theorem placementHash_eq_abs (T : Tables) (b : Board) :
+    placementHash T b = allSq.foldl (fun h s => match b.abs.board s with
+      | some (pc, c) => h ^^^ T.zPiece c pc s
+      | none => h) 0#64 := by
+  unfold placementHash
+  congr 1
+  funext h s
+  unfold keyAt Board.abs
+  dsimp only
+  cases b.pieceOn s <;> cases b.colorOn s <;> simp
+
+theorem castleRights_eta (b : Board) (c : Color) :
+    (⟨(b.castleRights c).ks, (b.castleRights c).qs⟩ : CastleRights) = b.castleRights c := rfl
+
+theorem xor_swap_mid (A E X Y S : BB) : A ^^^ E ^^^ X ^^^ Y ^^^ S = A ^^^ E ^^^ Y ^^^ X ^^^ S := by
+  apply BitVec.eq_of_getLsbD_eq; intro i _
+  simp only [BitVec.getLsbD_xor]
+  cases A.getLsbD i <;> cases E.getLsbD i <;> cases X.getLsbD i <;> cases Y.getLsbD i <;> cases S.getLsbD i <;> rfl
+
+/-- `get_hash` of a board whose raw hash is the placement hash depends only on the position -/
+theorem getHash_eq_hashOf (T : Tables) (b : Board) (h : b.hash = placementHash T b) :
+    b.getHash T = b.abs.hashOf T := by
+  unfold Board.getHash Pos.hashOf
+  dsimp only
+  rw [h, placementHash_eq_abs]
+  have e1 : b.abs.ep = b.ep := rfl
+  have e2 : b.abs.stm = b.stm := rfl
+  have e3 : ∀ c, (⟨b.abs.castleK c, b.abs.castleQ c⟩ : CastleRights) = b.castleRights c := fun c => rfl
+  rw [e1, e2, e3, e3]
+  cases hs : b.stm with
+  | white => rfl
+  | black =>
+    simp only [Color.other]
+    exact xor_swap_mid _ _ _ _ _
+
+end Chess
+
+namespace Chess
+
+/-! ### field lemmas for `Board.xor` -/
+
+theorem xor_pieces (T : Tables) (b : Board) (p q : Piece) (bb : BB) (c : Color) :
+    (b.xor T p bb c).pieces q = if q = p then b.pieces q ^^^ bb else b.pieces q := by
+  cases p <;> cases q <;> cases c <;> rfl
+
+theorem xor_colorCombined (T : Tables) (b : Board) (p : Piece) (bb : BB) (c d : Color) :
+    (b.xor T p bb c).colorCombined d = if d = c then b.colorCombined d ^^^ bb else b.colorCombined d := by
+  cases p <;> cases c <;> cases d <;> rfl
+
+theorem xor_combined (T : Tables) (b : Board) (p : Piece) (bb : BB) (c : Color) :
+    (b.xor T p bb c).combined = b.combined ^^^ bb := by
+  cases p <;> cases c <;> rfl
+
+theorem xor_hash (T : Tables) (b : Board) (p : Piece) (bb : BB) (c : Color) :
+    (b.xor T p bb c).hash = b.hash ^^^ T.zPiece c p bb.toSq := by
+  cases p <;> cases c <;> rfl
+
+theorem xor_stm (T : Tables) (b : Board) (p : Piece) (bb : BB) (c : Color) : (b.xor T p bb c).stm = b.stm := by
+  cases p <;> cases c <;> rfl
+theorem xor_ep (T : Tables) (b : Board) (p : Piece) (bb : BB) (c : Color) : (b.xor T p bb c).ep = b.ep := by
+  cases p <;> cases c <;> rfl
+theorem xor_wcr (T : Tables) (b : Board) (p : Piece) (bb : BB) (c : Color) : (b.xor T p bb c).wcr = b.wcr := by
+  cases p <;> cases c <;> rfl
+theorem xor_bcr (T : Tables) (b : Board) (p : Piece) (bb : BB) (c : Color) : (b.xor T p bb c).bcr = b.bcr := by
+  cases p <;> cases c <;> rfl
+theorem xor_pinned (T : Tables) (b : Board) (p : Piece) (bb : BB) (c : Color) : (b.xor T p bb c).pinned = b.pinned := by
+  cases p <;> cases c <;> rfl
+theorem xor_checkers (T : Tables) (b : Board) (p : Piece) (bb : BB) (c : Color) : (b.xor T p bb c).checkers = b.checkers := by
+  cases p <;> cases c <;> rfl
+
+theorem white_eq (b : Board) : b.white = b.colorCombined .white := rfl
+theorem black_eq (b : Board) : b.black = b.colorCombined .black := rfl
+
+/-- the content of a square, read from the bits -/
+def Board.content (b : Board) (s : Sq) : Option (Piece × Color) :=
+  match b.pieceOn s, b.colorOn s with
+  | some p, some c => some (p, c)
+  | _, _ => none
+
+theorem abs_board (b : Board) : b.abs.board = b.content := rfl
+
+theorem keyAt_content (T : Tables) (b : Board) (s : Sq) :
+    keyAt T b s = match b.content s with | some (p, c) => T.zPiece c p s | none => 0#64 := by
+  unfold keyAt Board.content
+  cases b.pieceOn s <;> cases b.colorOn s <;> rfl
+
+theorem pieceOn_some_iff {b : Board} (h : Struct b) (s : Sq) (p : Piece) :
+    b.pieceOn s = some p ↔ b.pbit p s.val = true := by
+  rw [pieceOn_bits]
+  have hd := h.piece_disj s.val
+  have hc := h.comb_piece s.val
+  have dj : ∀ x y : Piece, x ≠ y → (b.pbit x s.val && b.pbit y s.val) = false := by
+    intro x y hxy
+    cases hx : b.pbit x s.val with
+    | false => rfl
+    | true => rw [hd x y hxy hx]; rfl
+  have hcomb : b.combined.getLsbD s.val = (b.pawns.getLsbD s.val || b.knights.getLsbD s.val || b.bishops.getLsbD s.val
+      || b.rooks.getLsbD s.val || b.queens.getLsbD s.val || b.kings.getLsbD s.val) := by
+    cases hcb : b.combined.getLsbD s.val with
+    | true =>
+      obtain ⟨q, hq⟩ := hc.mp hcb
+      cases q <;> (simp only [Board.pbit, Board.pieces] at hq; rw [hq]; simp only [Bool.or_true, Bool.true_or])
+    | false =>
+      have hno : ∀ q, b.pbit q s.val = false := by
+        intro q
+        cases hq : b.pbit q s.val with
+        | false => rfl
+        | true => have := hc.mpr ⟨q, hq⟩; rw [hcb] at this; cases this
+      have h1 := hno .pawn; have h2 := hno .knight; have h3 := hno .bishop
+      have h4 := hno .rook; have h5 := hno .queen; have h6 := hno .king
+      simp only [Board.pbit, Board.pieces] at h1 h2 h3 h4 h5 h6
+      rw [h1, h2, h3, h4, h5, h6]; rfl
+  have hgoal : b.pbit p s.val = (match p with
+      | Piece.pawn => BitVec.getLsbD b.pawns ↑s | Piece.knight => BitVec.getLsbD b.knights ↑s
+      | Piece.bishop => BitVec.getLsbD b.bishops ↑s | Piece.rook => BitVec.getLsbD b.rooks ↑s
+      | Piece.queen => BitVec.getLsbD b.queens ↑s | Piece.king => BitVec.getLsbD b.kings ↑s) := by
+    cases p <;> rfl
+  rw [hgoal]
+  exact pieceOnBits_spec _ _ _ _ _ _ _ hcomb
+    (dj .pawn .knight (by decide)) (dj .pawn .bishop (by decide)) (dj .pawn .rook (by decide)) (dj .pawn .queen (by decide))
+    (dj .pawn .king (by decide)) (dj .knight .bishop (by decide)) (dj .knight .rook (by decide)) (dj .knight .queen (by decide))
+    (dj .knight .king (by decide)) (dj .bishop .rook (by decide)) (dj .bishop .queen (by decide)) (dj .bishop .king (by decide))
+    (dj .rook .queen (by decide)) (dj .rook .king (by decide)) (dj .queen .king (by decide)) p
+
+theorem pieceOn_none_iff (b : Board) (s : Sq) : b.pieceOn s = none ↔ b.combined.getLsbD s.val = false := by
+  rw [pieceOn_bits]
+  unfold pieceOnBits
+  cases b.combined.getLsbD s.val with
+  | false => simp
+  | true =>
+    simp only [if_false, Bool.true_eq_false]
+    constructor
+    · intro hh
+      split at hh
+      · split at hh
+        · cases hh
+        · split at hh <;> cases hh
+      · split at hh
+        · cases hh
+        · split at hh <;> cases hh
+    · intro hh; cases hh
+
+theorem Struct.color_of_comb {b : Board} (h : Struct b) (i : Nat) :
+    b.combined.getLsbD i = true → (b.white.getLsbD i = true ∨ b.black.getLsbD i = true) := by
+  intro hc
+  have := h.comb_color i
+  rw [hc] at this
+  cases hw : b.white.getLsbD i with
+  | true => exact Or.inl rfl
+  | false =>
+    cases hb : b.black.getLsbD i with
+    | true => exact Or.inr rfl
+    | false => rw [hw, hb] at this; cases this
+
+theorem colorOn_white {b : Board} {s : Sq} (hw : b.white.getLsbD s.val = true) : b.colorOn s = some .white := by
+  rw [colorOn_bits, if_pos hw]
+theorem colorOn_black {b : Board} {s : Sq} (hw : b.white.getLsbD s.val = false) (hb : b.black.getLsbD s.val = true) :
+    b.colorOn s = some .black := by
+  rw [colorOn_bits, if_neg (by rw [hw]; decide), if_pos hb]
+theorem colorOn_none {b : Board} {s : Sq} (hw : b.white.getLsbD s.val = false) (hb : b.black.getLsbD s.val = false) :
+    b.colorOn s = none := by
+  rw [colorOn_bits, if_neg (by rw [hw]; decide), if_neg (by rw [hb]; decide)]
+
+theorem Struct.content_none_iff {b : Board} (h : Struct b) (s : Sq) :
+    b.content s = none ↔ b.combined.getLsbD s.val = false := by
+  unfold Board.content
+  constructor
+  · intro hn
+    cases hc : b.combined.getLsbD s.val with
+    | false => rfl
+    | true =>
+      exfalso
+      obtain ⟨p, hp⟩ := (h.comb_piece s.val).mp hc
+      have hpo := (pieceOn_some_iff h s p).mpr hp
+      rcases h.color_of_comb s.val hc with hw | hb
+      · rw [hpo, colorOn_white hw] at hn; cases hn
+      · cases hw : b.white.getLsbD s.val with
+        | true => rw [hpo, colorOn_white hw] at hn; cases hn
+        | false => rw [hpo, colorOn_black hw hb] at hn; cases hn
+  · intro hc
+    rw [(pieceOn_none_iff b s).mpr hc]
+
+theorem Struct.content_some_iff {b : Board} (h : Struct b) (s : Sq) (p : Piece) (c : Color) :
+    b.content s = some (p, c) ↔ b.pbit p s.val = true ∧ b.cbit c s.val = true := by
+  unfold Board.content
+  constructor
+  · intro hs
+    cases hpo : b.pieceOn s with
+    | none => rw [hpo] at hs; cases hs
+    | some p' =>
+      cases hw : b.white.getLsbD s.val with
+      | true =>
+        rw [hpo, colorOn_white hw] at hs
+        injection hs with hs; injection hs with h1 h2
+        subst h1 h2
+        exact ⟨(pieceOn_some_iff h s p').mp hpo, hw⟩
+      | false =>
+        cases hb : b.black.getLsbD s.val with
+        | true =>
+          rw [hpo, colorOn_black hw hb] at hs
+          injection hs with hs; injection hs with h1 h2
+          subst h1 h2
+          exact ⟨(pieceOn_some_iff h s p').mp hpo, hb⟩
+        | false => rw [hpo, colorOn_none hw hb] at hs; cases hs
+  · rintro ⟨hp, hc⟩
+    rw [(pieceOn_some_iff h s p).mpr hp]
+    cases c with
+    | white =>
+      have hw : b.white.getLsbD s.val = true := hc
+      rw [colorOn_white hw]
+    | black =>
+      have hb : b.black.getLsbD s.val = true := hc
+      have hw : b.white.getLsbD s.val = false := by
+        cases hw : b.white.getLsbD s.val with
+        | false => rfl
+        | true => have := h.color_disj s.val hw; rw [hb] at this; cases this
+      rw [colorOn_black hw hb]
+
+end Chess
+
+namespace Chess
+
+/-! ### toggling one man: bits -/
+
+theorem xor_pbit (T : Tables) (b : Board) (p q : Piece) (s : Sq) (c : Color) (i : Nat) :
+    (b.xor T p (BB.ofSq s) c).pbit q i = if q = p ∧ i = s.val then !b.pbit q i else b.pbit q i := by
+  unfold Board.pbit
+  rw [xor_pieces]
+  by_cases hq : q = p
+  · rw [if_pos hq, getLsbD_xor_ofSq]
+    by_cases hi : i = s.val
+    · rw [if_pos hi, if_pos ⟨hq, hi⟩]
+    · rw [if_neg hi, if_neg (fun h => hi h.2)]
+  · rw [if_neg hq, if_neg (fun h => hq h.1)]
+
+theorem xor_cbit (T : Tables) (b : Board) (p : Piece) (s : Sq) (c d : Color) (i : Nat) :
+    (b.xor T p (BB.ofSq s) c).cbit d i = if d = c ∧ i = s.val then !b.cbit d i else b.cbit d i := by
+  unfold Board.cbit
+  rw [xor_colorCombined]
+  by_cases hq : d = c
+  · rw [if_pos hq, getLsbD_xor_ofSq]
+    by_cases hi : i = s.val
+    · rw [if_pos hi, if_pos ⟨hq, hi⟩]
+    · rw [if_neg hi, if_neg (fun h => hi h.2)]
+  · rw [if_neg hq, if_neg (fun h => hq h.1)]
+
+theorem xor_combbit (T : Tables) (b : Board) (p : Piece) (s : Sq) (c : Color) (i : Nat) :
+    (b.xor T p (BB.ofSq s) c).combined.getLsbD i = if i = s.val then !b.combined.getLsbD i else b.combined.getLsbD i := by
+  rw [xor_combined, getLsbD_xor_ofSq]
+
+theorem Struct.empty_bits {b : Board} (h : Struct b) (i : Nat) (he : b.combined.getLsbD i = false) :
+    (∀ q, b.pbit q i = false) ∧ b.white.getLsbD i = false ∧ b.black.getLsbD i = false := by
+  refine ⟨?_, ?_, ?_⟩
+  · intro q
+    cases hq : b.pbit q i with
+    | false => rfl
+    | true => have := (h.comb_piece i).mpr ⟨q, hq⟩; rw [he] at this; cases this
+  · have := h.comb_color i; rw [he] at this
+    cases hw : b.white.getLsbD i with
+    | false => rfl
+    | true => rw [hw] at this; cases this
+  · have := h.comb_color i; rw [he] at this
+    cases hb : b.black.getLsbD i with
+    | false => rfl
+    | true => rw [hb, Bool.or_true] at this; cases this
+
+theorem cbit_white (b : Board) (i : Nat) : b.cbit .white i = b.white.getLsbD i := rfl
+theorem cbit_black (b : Board) (i : Nat) : b.cbit .black i = b.black.getLsbD i := rfl
+
+/-- placing a man on an empty square keeps the structure -/
+theorem Struct.xor_add {b : Board} (T : Tables) (h : Struct b) (s : Sq) (p : Piece) (c : Color)
+    (he : b.combined.getLsbD s.val = false) : Struct (b.xor T p (BB.ofSq s) c) := by
+  obtain ⟨hp0, hw0, hb0⟩ := h.empty_bits s.val he
+  constructor
+  · intro i x y hxy hx
+    rw [xor_pbit] at hx ⊢
+    by_cases hi : i = s.val
+    · subst hi
+      by_cases hxp : x = p
+      · subst hxp
+        rw [if_neg (fun hh => hxy hh.1.symm), hp0]
+      · rw [if_neg (fun hh => hxp hh.1), hp0] at hx; cases hx
+    · rw [if_neg (fun hh => hi hh.2)] at hx ⊢
+      exact h.piece_disj i x y hxy hx
+  · intro i hw
+    rw [white_eq, ← Board.cbit, xor_cbit] at hw
+    rw [black_eq, ← Board.cbit, xor_cbit]
+    by_cases hi : i = s.val
+    · subst hi
+      cases c with
+      | white => rw [if_neg (fun hh => by cases hh.1), cbit_black, hb0]
+      | black => rw [if_neg (fun hh => by cases hh.1), cbit_white, hw0] at hw; cases hw
+    · rw [if_neg (fun hh => hi hh.2)] at hw ⊢
+      exact h.color_disj i hw
+  · intro i
+    rw [xor_combbit, white_eq, black_eq, ← Board.cbit, ← Board.cbit, xor_cbit, xor_cbit]
+    by_cases hi : i = s.val
+    · subst hi
+      rw [if_pos rfl, he, cbit_white, cbit_black, hw0, hb0]
+      cases c <;> simp
+    · rw [if_neg hi, if_neg (fun hh => hi hh.2), if_neg (fun hh => hi hh.2)]
+      exact h.comb_color i
+  · intro i
+    rw [xor_combbit]
+    by_cases hi : i = s.val
+    · subst hi
+      rw [if_pos rfl, he]
+      constructor
+      · intro _; exact ⟨p, by rw [xor_pbit, if_pos ⟨rfl, rfl⟩, hp0]; rfl⟩
+      · intro _; rfl
+    · rw [if_neg hi]
+      constructor
+      · intro hc
+        obtain ⟨q, hq⟩ := (h.comb_piece i).mp hc
+        exact ⟨q, by rw [xor_pbit, if_neg (fun hh => hi hh.2)]; exact hq⟩
+      · rintro ⟨q, hq⟩
+        rw [xor_pbit, if_neg (fun hh => hi hh.2)] at hq
+        exact (h.comb_piece i).mpr ⟨q, hq⟩
+
+/-- removing the man that stands on a square keeps the structure -/
+theorem Struct.xor_remove {b : Board} (T : Tables) (h : Struct b) (s : Sq) (p : Piece) (c : Color)
+    (hp : b.pbit p s.val = true) (hc : b.cbit c s.val = true) : Struct (b.xor T p (BB.ofSq s) c) := by
+  have hcomb : b.combined.getLsbD s.val = true := (h.comb_piece s.val).mpr ⟨p, hp⟩
+  have hother : ∀ q, q ≠ p → b.pbit q s.val = false := fun q hq => h.piece_disj s.val p q (Ne.symm hq) hp
+  have hocW : c = .white → b.cbit .black s.val = false := by
+    intro hcw; subst hcw; exact h.color_disj s.val hc
+  have hocB : c = .black → b.cbit .white s.val = false := by
+    intro hcb; subst hcb
+    cases hw : b.cbit Color.white s.val with
+    | false => rfl
+    | true => have := h.color_disj s.val hw; rw [← cbit_black, hc] at this; cases this
+  constructor
+  · intro i x y hxy hx
+    rw [xor_pbit] at hx ⊢
+    by_cases hi : i = s.val
+    · subst hi
+      by_cases hxp : x = p
+      · subst hxp; rw [if_pos ⟨rfl, rfl⟩, hp] at hx; cases hx
+      · rw [if_neg (fun hh => hxp hh.1), hother x hxp] at hx; cases hx
+    · rw [if_neg (fun hh => hi hh.2)] at hx ⊢
+      exact h.piece_disj i x y hxy hx
+  · intro i hw
+    rw [white_eq, ← Board.cbit, xor_cbit] at hw
+    rw [black_eq, ← Board.cbit, xor_cbit]
+    by_cases hi : i = s.val
+    · subst hi
+      cases c with
+      | white => rw [if_pos ⟨rfl, rfl⟩, hc] at hw; cases hw
+      | black => rw [if_neg (fun hh => by cases hh.1)] at hw; rw [hocB rfl] at hw; cases hw
+    · rw [if_neg (fun hh => hi hh.2)] at hw ⊢
+      exact h.color_disj i hw
+  · intro i
+    rw [xor_combbit, white_eq, black_eq, ← Board.cbit, ← Board.cbit, xor_cbit, xor_cbit]
+    by_cases hi : i = s.val
+    · subst hi
+      rw [if_pos rfl, hcomb]
+      cases c with
+      | white => rw [if_pos ⟨rfl, rfl⟩, if_neg (fun hh => by cases hh.1), hc, hocW rfl]; rfl
+      | black => rw [if_neg (fun hh => by cases hh.1), if_pos ⟨rfl, rfl⟩, hc, hocB rfl]; rfl
+    · rw [if_neg hi, if_neg (fun hh => hi hh.2), if_neg (fun hh => hi hh.2)]
+      exact h.comb_color i
+  · intro i
+    rw [xor_combbit]
+    by_cases hi : i = s.val
+    · subst hi
+      rw [if_pos rfl, hcomb]
+      constructor
+      · intro hh; cases hh
+      · rintro ⟨q, hq⟩
+        rw [xor_pbit] at hq
+        by_cases hqp : q = p
+        · subst hqp; rw [if_pos ⟨rfl, rfl⟩, hp] at hq; cases hq
+        · rw [if_neg (fun hh => hqp hh.1), hother q hqp] at hq; cases hq
+    · rw [if_neg hi]
+      constructor
+      · intro hc
+        obtain ⟨q, hq⟩ := (h.comb_piece i).mp hc
+        exact ⟨q, by rw [xor_pbit, if_neg (fun hh => hi hh.2)]; exact hq⟩
+      · rintro ⟨q, hq⟩
+        rw [xor_pbit, if_neg (fun hh => hi hh.2)] at hq
+        exact (h.comb_piece i).mpr ⟨q, hq⟩
+
+end Chess
+
+namespace Chess
+
+/-! ### toggling one man: contents and hash -/
+
+theorem Struct.content_eq_of_bits {b b' : Board} (h : Struct b) (h' : Struct b') (t : Sq)
+    (hp : ∀ q, b'.pbit q t.val = b.pbit q t.val) (hc : ∀ d, b'.cbit d t.val = b.cbit d t.val)
+    (hcomb : b'.combined.getLsbD t.val = b.combined.getLsbD t.val) : b'.content t = b.content t := by
+  cases hb : b.content t with
+  | none =>
+    rw [h'.content_none_iff, hcomb, ← h.content_none_iff]; exact hb
+  | some pc =>
+    obtain ⟨q, d⟩ := pc
+    rw [h'.content_some_iff, hp, hc, ← h.content_some_iff]; exact hb
+
+theorem content_xor_add {b : Board} (T : Tables) (h : Struct b) (s : Sq) (p : Piece) (c : Color)
+    (he : b.combined.getLsbD s.val = false) (t : Sq) :
+    (b.xor T p (BB.ofSq s) c).content t = if t = s then some (p, c) else b.content t := by
+  have h' := h.xor_add T s p c he
+  obtain ⟨hp0, hw0, hb0⟩ := h.empty_bits s.val he
+  by_cases hts : t = s
+  · subst hts
+    rw [if_pos rfl, h'.content_some_iff, xor_pbit, xor_cbit, if_pos ⟨rfl, rfl⟩, if_pos ⟨rfl, rfl⟩, hp0]
+    refine ⟨rfl, ?_⟩
+    cases c with
+    | white => rw [cbit_white, hw0]; rfl
+    | black => rw [cbit_black, hb0]; rfl
+  · rw [if_neg hts]
+    have hv : t.val ≠ s.val := fun hh => hts (Fin.ext hh)
+    apply h.content_eq_of_bits h'
+    · intro q; rw [xor_pbit, if_neg (fun hh => hv hh.2)]
+    · intro d; rw [xor_cbit, if_neg (fun hh => hv hh.2)]
+    · rw [xor_combbit, if_neg hv]
+
+theorem content_xor_remove {b : Board} (T : Tables) (h : Struct b) (s : Sq) (p : Piece) (c : Color)
+    (hp : b.pbit p s.val = true) (hc : b.cbit c s.val = true) (t : Sq) :
+    (b.xor T p (BB.ofSq s) c).content t = if t = s then none else b.content t := by
+  have h' := h.xor_remove T s p c hp hc
+  have hcomb : b.combined.getLsbD s.val = true := (h.comb_piece s.val).mpr ⟨p, hp⟩
+  by_cases hts : t = s
+  · subst hts
+    rw [if_pos rfl, h'.content_none_iff, xor_combbit, if_pos rfl, hcomb]; rfl
+  · rw [if_neg hts]
+    have hv : t.val ≠ s.val := fun hh => hts (Fin.ext hh)
+    apply h.content_eq_of_bits h'
+    · intro q; rw [xor_pbit, if_neg (fun hh => hv hh.2)]
+    · intro d; rw [xor_cbit, if_neg (fun hh => hv hh.2)]
+    · rw [xor_combbit, if_neg hv]
+
+theorem Core.xor_add {T : Tables} {b : Board} (h : Core T b) (s : Sq) (p : Piece) (c : Color)
+    (he : b.combined.getLsbD s.val = false) : Core T (b.xor T p (BB.ofSq s) c) := by
+  refine ⟨h.toStruct.xor_add T s p c he, ?_⟩
+  rw [xor_hash, toSq_ofSq, h.hash]
+  unfold placementHash
+  rw [foldl_xor_update (keyAt T b) (keyAt T (b.xor T p (BB.ofSq s) c)) allSq 0#64 s allSq_nodup (mem_allSq s)]
+  · rw [keyAt_content, keyAt_content, content_xor_add T h.toStruct s p c he, if_pos rfl,
+      (h.toStruct.content_none_iff s).mpr he]
+    simp only [BitVec.xor_zero]
+  · intro t ht
+    rw [keyAt_content, keyAt_content, content_xor_add T h.toStruct s p c he, if_neg ht]
+
+theorem Core.xor_remove {T : Tables} {b : Board} (h : Core T b) (s : Sq) (p : Piece) (c : Color)
+    (hp : b.pbit p s.val = true) (hc : b.cbit c s.val = true) : Core T (b.xor T p (BB.ofSq s) c) := by
+  refine ⟨h.toStruct.xor_remove T s p c hp hc, ?_⟩
+  rw [xor_hash, toSq_ofSq, h.hash]
+  unfold placementHash
+  rw [foldl_xor_update (keyAt T b) (keyAt T (b.xor T p (BB.ofSq s) c)) allSq 0#64 s allSq_nodup (mem_allSq s)]
+  · rw [keyAt_content, keyAt_content, content_xor_remove T h.toStruct s p c hp hc, if_pos rfl,
+      (h.toStruct.content_some_iff s p c).mpr ⟨hp, hc⟩]
+    simp only [BitVec.xor_zero]
+  · intro t ht
+    rw [keyAt_content, keyAt_content, content_xor_remove T h.toStruct s p c hp hc, if_neg ht]
 
 end Chess
